@@ -488,7 +488,7 @@ func c11Swap(c *Ctx) {
 	c.lockPairing("SwapStore", "SwapWriteStore")
 	// held-through-call: a value loaded from SwapStore.s is only used (called) while the lock is
 	// held and does not leave the critical section
-	for _, fn := range c.Funcs {
+	for _, fn := range c.subjects() {
 		var lf *lockFlow
 		instrs(fn, func(_ *ssa.BasicBlock, _ int, ins ssa.Instruction) {
 			ld, ok := ins.(*ssa.UnOp)
